@@ -9,7 +9,6 @@ import (
 	"os"
 	"path"
 	"sync"
-	"time"
 
 	"github.com/pojntfx/stfs/internal/ioext"
 	"github.com/pojntfx/stfs/internal/pathext"
@@ -153,29 +152,21 @@ func (f *File) syncWithoutLocking() error {
 					return config.FileConfig{}, err
 				}
 
-				// Some OSes like i.e. Windows don't support numeric GIDs and UIDs, so use 0 instead
-				gid := 0
-				uid := 0
-				modTime := f.info.ModTime()
-				accessTime := f.info.ModTime()
-				changeTime := f.info.ModTime()
-				sys, ok := f.info.Sys().(*Stat)
-				if ok {
-					gid = int(sys.Gid)
-					uid = int(sys.Uid)
-					accessTime = time.Unix(0, sys.Atim.Nano())
-					changeTime = time.Unix(0, sys.Ctim.Nano())
-				}
+				// The flush replaces the content only: mode, owner and times are what the entry has now, which is not
+				// necessarily what it had when this handle was opened (`Chmod`, `Chown` and `Chtimes` can have been called since)
+				flushed := *existingFile
+				flushed.Size = size
+				current := NewFileInfoFromTarHeader(&flushed, f.log)
 
 				f.info = NewFileInfo(
 					f.info.Name(),
 					size,
-					f.info.Mode(),
-					modTime,
-					accessTime,
-					changeTime,
-					gid,
-					uid,
+					current.Mode(),
+					current.ModTime(),
+					existingFile.AccessTime,
+					existingFile.ChangeTime,
+					existingFile.Gid,
+					existingFile.Uid,
 					f.info.IsDir(),
 					f.log,
 				)
@@ -189,7 +180,8 @@ func (f *File) syncWithoutLocking() error {
 						// The `update` operation closes what it is given; the handle keeps using the write buffer after a `Sync`
 						return readSeekNopCloser{f.writeBuf}, nil
 					},
-					Info: f.info,
+					// (as a tar header's file information, so that the owner and the access and change times reach the record)
+					Info: flushed.FileInfo(),
 					Path: f.path,
 					Link: f.link,
 				}, nil
